@@ -78,6 +78,14 @@ def run(ctx):
                 "or converts a sink failure; the order/prefix property of the delivered bytes is not decided.")
     ctx.assume("std::fmt::Write::write_fmt / core::fmt::write propagate an Err from write_str (std semantics)")
     ctx.assume("custom formatters and Object::render implementations supplied by the host propagate errors")
+    # O10 (after seed C19-9): a failing sink ends the render, but the State may be kept (`render_captured_to`, then
+    # `State::render_block_to_write`): what the engine opened before the failing write - frames, depth charges, the block
+    # layer cursor, the macro's context - is closed on the error path too, or the next render on that state delivers other
+    # bytes than a plain render.  The error-path pairing of C05.B3 is a clause of this property.
+    if not ctx.is_borrowed:
+        from . import c05 as _c05
+        _c05.run(ctx.borrowed("C05", "C19.O10:", only=lambda rule, inst: "vm-opener-has-closer-on-every-path" in rule
+                              or "macro-context-swap-is-undone" in rule or "replaced-field-is-restored" in rule))
     for cname in ctx.configs():
         prog = ctx.program(cname)
         tag = "" if cname == "MAX" else "[%s]" % cname
